@@ -507,6 +507,7 @@ type c09ValGen struct {
 	r     *verifkit.Rand
 	valid bool // every choice so far stayed inside the bounds the tags promise
 	zwNE  bool // a non-empty list of zero-width elements was generated (cannot round-trip: encodes like the empty list)
+	big   int  // > 0: non-byte vectors get at least this many elements and byte strings several hundred bytes where their bounds allow (encodings beyond any initial buffer size)
 }
 
 func pow256(c int) uint64 { // 256^c for c ≤ 7
@@ -670,6 +671,9 @@ func (vg *c09ValGen) gen(t *c09Ty, inf *c09Info, dst reflect.Value, depth int) i
 	case "slice":
 		if t.e.isU8() {
 			n := vg.pickLen(inf)
+			if vg.big > 0 && lenOK(inf, 700) && r.Intn(4) != 0 {
+				n = 500 + r.Intn(200)
+			}
 			if !lenOK(inf, n) {
 				vg.valid = false
 			}
@@ -696,6 +700,12 @@ func (vg *c09ValGen) gen(t *c09Ty, inf *c09Info, dst reflect.Value, depth int) i
 		}
 		if inf != nil && inf.ranged && inf.min == 0 && inf.max <= 12 && r.Intn(3) != 0 {
 			k = r.Intn(3)
+		}
+		if vg.big > 0 && !t.e.zero {
+			k = vg.big + r.Intn(vg.big)
+			if depth > 0 {
+				k = 2 + r.Intn(6) // inner vectors: a few elements each, many of them
+			}
 		}
 		s := reflect.MakeSlice(dst.Type(), k, k)
 		body := 0
@@ -940,6 +950,7 @@ type c09Case struct {
 	desc   string
 	flags  string
 	clean  bool
+	big    int // passed to the value generator
 }
 
 func (c *c09Case) opEnc(vs string) string {
@@ -957,7 +968,8 @@ func c09DecodeCheck(out *verifkit.Out, c *c09Case, data []byte, mode string) {
 		out.Count("class:skipped-after-hangs")
 		return
 	}
-	res := c09Decode(c.rt, data, c.params)
+	buf := append([]byte{}, data...) // the decoder sees a private copy, which is overwritten afterwards (see below)
+	res := c09Decode(c.rt, buf, c.params)
 	op := c.opDec(data)
 	switch {
 	case res.hang:
@@ -976,6 +988,7 @@ func c09DecodeCheck(out *verifkit.Out, c *c09Case, data []byte, mode string) {
 	out.Count("class:dec-ok")
 	vs := c09ShowS(c.t, res.val)
 	// remainder must be a suffix of the input
+	res.rest = append([]byte{}, res.rest...)
 	if len(res.rest) > len(data) || !bytes.Equal(res.rest, data[len(data)-len(res.rest):]) {
 		c09Fail(out, "rest", c.flags, op, "remainder is not a suffix of the input: "+verifkit.Hex(res.rest))
 		return
@@ -1000,6 +1013,17 @@ func c09DecodeCheck(out *verifkit.Out, c *c09Case, data []byte, mode string) {
 		return
 	}
 	out.T(op, "ok "+vs+" "+verifkit.Hex(res.rest))
+	// the caller reuses or scrubs its input buffer while holding the result: the decoded value is a value, not a view of the
+	// input (the model's `dec` returns values) — it still shows and re-encodes as before
+	out.Count("mode:input-overwritten")
+	for i := range buf {
+		buf[i] ^= 0xa5
+	}
+	re2, ok2, _ := c09Encode(res.val, c.params)
+	if vs2 := c09ShowS(c.t, res.val); vs2 != vs || !ok2 || !bytes.Equal(re2, consumed) {
+		c09Fail(out, "alias", c.flags, op, fmt.Sprintf("after the input buffer was overwritten the decoded value changed from %s to %s (re-encodes as %s)", vs, vs2, verifkit.Hex(re2)))
+		return
+	}
 	// decoding into a destination that already holds a value: the result must not depend on what was there before
 	// (the model's `dec` has no such input at all) — same value, same rest as the fresh decode above
 	if strings.Contains(c.flags, "zw") {
@@ -1142,7 +1166,7 @@ func c09Run(out *verifkit.Out, r *verifkit.Rand, c *c09Case, nvals int) {
 		out.Count("types:flags:" + c.flags)
 	}
 	for i := 0; i < nvals; i++ {
-		vg := &c09ValGen{r: r, valid: true}
+		vg := &c09ValGen{r: r, valid: true, big: c.big}
 		v := reflect.New(c.rt).Elem()
 		if pan := verifkit.Guard(func() { vg.gen(c.t, c.pinfo, v, 0) }); pan != "" {
 			panic("c09 generator: " + pan + " on " + c.desc)
@@ -1266,6 +1290,26 @@ func c09Corpus(out *verifkit.Out, r *verifkit.Rand) {
 	inner := &c09Ty{k: "struct", fs: []c09Field{{name: "Val", tag: "minlen:1,maxlen:65535", t: &c09Ty{k: "slice", e: prim("u8")}, info: &c09Info{count: 2, min: 1, max: 65535, ranged: true}}}}
 	doc2 := mk(&c09Ty{k: "struct", fs: []c09Field{{name: "Inners", tag: "minlen:1,maxlen:65535", t: &c09Ty{k: "slice", e: inner}, info: &c09Info{count: 2, min: 1, max: 65535, ranged: true}}}}, "", nil, "")
 	c09Run(out, r, doc2, 8)
+	// LARGE non-byte vectors: encodings well beyond 1 KiB with a vector still open while the output grows (a length prefix that is
+	// reserved first and patched later must survive the growth), alone, nested and between other fields
+	r24 := func() *c09Info { return &c09Info{count: 3, max: 1<<24 - 1, ranged: true} }
+	r16 := func() *c09Info { return &c09Info{count: 2, max: 65535, ranged: true} }
+	cert := &c09Ty{k: "struct", fs: []c09Field{{name: "Data", tag: "minlen:1,maxlen:16777215", t: &c09Ty{k: "slice", e: prim("u8")}, info: &c09Info{count: 3, min: 1, max: 1<<24 - 1, ranged: true}}}}
+	row := &c09Ty{k: "struct", fs: []c09Field{{name: "W", tag: "maxlen:65535", t: &c09Ty{k: "slice", e: prim("u16")}, info: r16()}, {name: "X", t: prim("u8")}}}
+	for _, lc := range []struct {
+		c   *c09Case
+		big int
+	}{
+		{mk(&c09Ty{k: "struct", fs: []c09Field{{name: "V", tag: "maxlen:65535", t: &c09Ty{k: "slice", e: prim("u32")}, info: r16()}}}, "", nil, ""), 300},
+		{mk(&c09Ty{k: "slice", e: prim("u16")}, "maxlen:65535", r16(), ""), 600},
+		{mk(&c09Ty{k: "struct", fs: []c09Field{{name: "Entries", tag: "minlen:0,maxlen:16777215", t: &c09Ty{k: "slice", e: cert}, info: r24()}}}, "", nil, ""), 2},
+		{mk(&c09Ty{k: "struct", fs: []c09Field{{name: "A", t: prim("u8")}, {name: "Rows", tag: "maxlen:16777215", t: &c09Ty{k: "slice", e: row}, info: r24()}, {name: "Z", t: prim("u16")}}}, "", nil, ""), 150},
+		{mk(&c09Ty{k: "struct", fs: []c09Field{{name: "Pre", tag: "maxlen:65535", t: &c09Ty{k: "slice", e: prim("u8")}, info: r16()},
+			{name: "V", tag: "maxlen:65535", t: &c09Ty{k: "slice", e: prim("u64")}, info: r16()}, {name: "Entries", tag: "maxlen:16777215", t: &c09Ty{k: "slice", e: cert}, info: r24()}}}, "", nil, ""), 40},
+	} {
+		lc.c.big = lc.big
+		c09Run(out, r, lc.c, 3)
+	}
 	// every shape outside the well-formed grammar once, between two ordinary fields (no expectation: the model must agree)
 	for q := 0; q < c09NQuirks; q++ {
 		f := c09Field{name: "Q"}
